@@ -69,8 +69,8 @@ Section Det.
     snd c1 = snd c2 /\ srel (fst c1) (fst c2).
   Proof.
     intros Hrel H1 H2. pose proof (srel_top _ _ Hrel) as Htop.
-    inversion H1 as [sa y s e rest s1' Hin1 | sa inpa p1 pr1 pop1 rest1 s1' ns1 ne1 Hin1 Hp1 E1 Hl1 Hg1]; subst;
-    inversion H2 as [sb y2 s2 e2 rest2 s2' Hin2 | sb inpb p2 pr2 pop2 rest2 s2' ns2 ne2 Hin2 Hp2 E2 Hl2 Hg2]; subst.
+    inversion H1 as [sa y s e rest s1' Hin1 | sa inpa p1 pr1 pop1 rest1 s1' ns1 ne1 Hin1 Hp1 E1 Hl1 Hn1 Hg1]; subst;
+    inversion H2 as [sb y2 s2 e2 rest2 s2' Hin2 | sb inpb p2 pr2 pop2 rest2 s2' ns2 ne2 Hin2 Hp2 E2 Hl2 Hn2 Hg2]; subst.
     - (* shift / shift *)
       rewrite Htop in Hin1. pose proof (det_cell _ _ _ _ _ Hdet Hin1 Hin2) as E. inversion E; subst.
       cbn. split; [reflexivity|]. constructor; [split; reflexivity|exact Hrel].
@@ -93,7 +93,7 @@ Section Det.
     In Accept (cell tb (top_state st) stop_id) -> lstep (st, []) c -> False.
   Proof.
     intros Hacc H.
-    inversion H as [? ? ? ? ? ? ? | sa inpa p pr pop rest s' ns ne Hin Hp E Hl Hg]; subst.
+    inversion H as [? ? ? ? ? ? ? | sa inpa p pr pop rest s' ns ne Hin Hp E Hl Hn Hg]; subst.
     cbn [NLR.la] in Hin. pose proof (det_cell _ _ _ _ _ Hdet Hacc Hin) as E. discriminate.
   Qed.
 
